@@ -1,6 +1,8 @@
 //! C12: page enumeration.  Case: (case <doc> <expect>) where expect is
 //!   (leaves (id gen)...)  -- the generator's own DFS leaves of the tree it built, or
 //!   (malformed)           -- only termination / page-ness / numbering are checked.
+//! Optional further elements: (flags exact-counts), (edits ((id gen) obj) ...) = objects that replace existing objects IN
+//! PLACE after the first get_pages() (no object is added or removed, max_id stays): get_pages() is then asked again.
 use lopdf::{Document, Object, ObjectId};
 use lvh::conv::*;
 use lvh::sx::Sx;
@@ -109,22 +111,46 @@ const DEPTH_LIMIT: usize = 256;
 fn main() {
     lvh::drive(|x| {
         let a = x.args();
-        let doc = match doc_of_sx(&a[0]) {
+        let mut doc = match doc_of_sx(&a[0]) {
             Some(d) => d,
             None => return (Sx::id("badcase"), "skip".into()),
+        };
+        // in-place replacements of existing objects, applied after everything else was asked of the document as built
+        let edits: Option<Vec<(ObjectId, Object)>> = match a.iter().skip(1).find(|e| e.tag() == Some("edits")) {
+            None => None,
+            Some(e) => {
+                let parsed: Option<Vec<(ObjectId, Object)>> = e
+                    .args()
+                    .iter()
+                    .map(|p| {
+                        let l = p.as_list()?;
+                        if l.len() != 2 {
+                            return None;
+                        }
+                        Some((oid_of_sx(&l[0])?, obj_of_sx(&l[1])?))
+                    })
+                    .collect();
+                match parsed {
+                    Some(v) => Some(v),
+                    None => return (Sx::id("badcase"), "skip".into()),
+                }
+            }
         };
         let iter: Vec<_> = doc.page_iter().collect();
         let pages = doc.get_pages();
         // size_hint of the fresh iterator and after every page it returns
-        let mut it = doc.page_iter();
-        let h0 = it.size_hint();
         let mut steps: Vec<(ObjectId, (usize, Option<usize>))> = vec![];
-        while let Some(id) = it.next() {
-            steps.push((id, it.size_hint()));
-            if steps.len() > doc.objects.len() + 1 {
-                break;
+        let h0 = {
+            let mut it = doc.page_iter();
+            let h0 = it.size_hint();
+            while let Some(id) = it.next() {
+                steps.push((id, it.size_hint()));
+                if steps.len() > doc.objects.len() + 1 {
+                    break;
+                }
             }
-        }
+            h0
+        };
         let hint_sx = |h: &(usize, Option<usize>)| -> Vec<Sx> {
             vec![Sx::num(h.0), h.1.map(Sx::num).unwrap_or_else(|| Sx::id("none"))]
         };
@@ -134,14 +160,9 @@ fn main() {
             v.extend(hint_sx(h));
             hints.push(Sx::L(v));
         }
-        let res = Sx::tagged(
-            "pages",
-            vec![
-                Sx::L(iter.iter().map(|id| oid_to_sx(*id)).collect()),
-                Sx::L(pages.iter().map(|(n, id)| Sx::L(vec![Sx::num(n), oid_to_sx(*id)])).collect()),
-                Sx::tagged("hints", hints),
-            ],
-        );
+        let iter_sx = |it: &[ObjectId]| Sx::L(it.iter().map(|id| oid_to_sx(*id)).collect());
+        let pages_sx = |ps: &std::collections::BTreeMap<u32, ObjectId>| Sx::L(ps.iter().map(|(n, id)| Sx::L(vec![Sx::num(n), oid_to_sx(*id)])).collect());
+        let mut res_items = vec![iter_sx(&iter), pages_sx(&pages), Sx::tagged("hints", hints)];
         // direct property evaluation
         let mut verdict = "ok".to_string();
         let numbered_ok = pages.len() == iter.len()
@@ -231,6 +252,79 @@ fn main() {
                 }
             }
         }
-        (res, verdict)
+        // get_pages() numbers the pages of the tree AS IT IS AT THE TIME OF THE CALL: ask, rearrange the tree in place
+        // (existing objects replaced under their own identifiers: objects.len() and max_id stay), ask again.
+        if let Some(edits) = edits {
+            let mut v2 = String::new();
+            let before = doc.get_pages();
+            if before != pages {
+                v2 = "FAIL two get_pages() calls on the unchanged document differ".into();
+            }
+            let (n_objects, max_id) = (doc.objects.len(), doc.max_id);
+            let mut saved: Vec<(ObjectId, Object)> = vec![];
+            for (id, o) in &edits {
+                match doc.objects.get_mut(id) {
+                    Some(slot) => {
+                        saved.push((*id, slot.clone()));
+                        *slot = o.clone();
+                    }
+                    None => return (Sx::id("badcase"), "skip".into()),
+                }
+            }
+            if doc.objects.len() != n_objects || doc.max_id != max_id {
+                return (Sx::id("badcase"), "FAIL machinery: the edit was not in place".into());
+            }
+            let pages2 = doc.get_pages();
+            let iter2: Vec<ObjectId> = doc.page_iter().collect();
+            res_items.push(Sx::tagged("after", vec![iter_sx(&iter2), pages_sx(&pages2)]));
+            let listed = |ps: &std::collections::BTreeMap<u32, ObjectId>| -> Option<Vec<ObjectId>> {
+                // Some(ids in order) when the keys are exactly 1..n
+                if ps.keys().enumerate().all(|(i, n)| *n as usize == i + 1) {
+                    Some(ps.values().copied().collect())
+                } else {
+                    None
+                }
+            };
+            match listed(&pages2) {
+                None => v2 = "FAIL after an in-place edit of the page tree get_pages() is not numbered 1..n".into(),
+                Some(got) => {
+                    if got != iter2 {
+                        v2 = format!(
+                            "FAIL after an in-place edit of the page tree get_pages() is not the numbering of page_iter() of the edited document: get_pages {}{}",
+                            differs(&got, &iter2),
+                            if Some(&got) == listed(&pages).as_ref() { " (it is the numbering of the document BEFORE the edit)" } else { "" }
+                        );
+                    }
+                    // the depth-first leaves of the edited tree, read by the harness itself
+                    if let Some((want, h)) = own_dfs(&doc) {
+                        if h <= DEPTH_LIMIT + 1 {
+                            if want != iter2 {
+                                v2 = format!("FAIL after an in-place edit page_iter vs the depth-first leaves of the edited tree (harness walk): page_iter {}", differs(&iter2, &want));
+                            }
+                            if want != got {
+                                v2 = format!("FAIL after an in-place edit get_pages() vs the depth-first leaves of the edited tree (harness walk): get_pages {}", differs(&got, &want));
+                            }
+                        }
+                    }
+                }
+            }
+            // a clone taken now numbers the edited tree as well
+            if doc.clone().get_pages() != pages2 && listed(&pages2).as_ref() == Some(&iter2) {
+                v2 = "FAIL a clone of the edited document numbers its pages differently".into();
+            }
+            // and back: the original objects restored, the first numbering is the answer again
+            for (id, o) in saved.into_iter().rev() {
+                doc.objects.insert(id, o);
+            }
+            let pages3 = doc.get_pages();
+            if pages3 != pages && numbered_ok {
+                v2 = "FAIL after undoing the in-place edit get_pages() is not the first numbering again".into();
+            }
+            // a verdict on the document as built (above) is the more direct one and is kept
+            if verdict == "ok" && !v2.is_empty() {
+                verdict = v2;
+            }
+        }
+        (Sx::tagged("pages", res_items), verdict)
     });
 }
